@@ -55,6 +55,24 @@ func exerciseFrame(frame []byte) string {
 				c := m.Copy()
 				c.LogLevel = lvl
 				_ = c.String()
+				// what the decoders hand back, displayed as the repository's own tests
+				// do: the object PrepareForDisplay returns / Analyse leaves in Readable
+				if m2, _ := handler.New(frameStart, lvl).GetMessage(append([]byte{}, frame...)); m2 != nil {
+					where = "PrepareForDisplay"
+					obj := handler.PrepareForDisplay(m2)
+					where = "String of the object returned by PrepareForDisplay"
+					if obj != nil {
+						if st, ok := obj.(fmt.Stringer); ok {
+							_ = st.String()
+						}
+					}
+					where = "String of Message.Readable"
+					if m.Readable != nil {
+						if st, ok := m.Readable.(fmt.Stringer); ok {
+							_ = st.String()
+						}
+					}
+				}
 			}
 			where = "HandleMessages-loop"
 			ch := make(chan byte, len(frame)+2)
@@ -133,7 +151,7 @@ func inputClass(frame []byte) string {
 // C07: nothing crashes or hangs framing, decoding or display.
 func C07(r *ev.Run) {
 	thorough := r.Tier == "thorough"
-	r.Rule = "(a) all strings up to length 6/7 over the C01 alphabets and all sequences of <=2/3 menu segments; (b) for each of the 16 decodable types x every payload length 1..1023 (quick: 1..64 and every 7th after) x 14 deterministic payload patterns (zeros, ones, two alternating patterns, masks announcing 1x1, 2x2, 8x8, 64x1, 1x32, 9x8 (>64) and 64x32 cells, illegal timestamps, all-invalid markers, counter bytes): CRC-valid frame through HandleMessages' loop, GetMessage, Analyse, String twice, Copy+String at both log levels and the four decoders directly; (c) every well-formed message of a C04/C05 selection truncated at every payload byte and re-framed with a valid CRC; (f) for each of the 14 MSM types, complete messages (2 satellites, 3 cells) in which a satellite carries each subset of {range invalid, rate invalid} and a cell each subset of {range delta, phase delta, rate delta invalid}, in one satellite/cell and in all; (d) every type 0..4095 with payload lengths {1,2,3,4,6,7,21,22,23}; (e) every ordered pair and triple from a 26-frame menu (MSM4/MSM7 of four constellations with early and late timestamps so that sequences cross week roll-overs, illegal timestamps, a message with cells, a short MSM, SBAS, 1005, text, an unknown type) through ONE handler at both log levels, every message decoded and displayed and all of them displayed again at the end. Oracle: every call returns (no panic, bounded framing loop, 60 s stall watchdog). Non-trivial = CRC-valid frames of a decodable type; distinct = distinct frames"
+	r.Rule = "(a) all strings up to length 6/7 over the C01 alphabets and all sequences of <=2/3 menu segments; (b) for each of the 16 decodable types x every payload length 1..1023 (quick: 1..64 and every 7th after) x 14 deterministic payload patterns (zeros, ones, two alternating patterns, masks announcing 1x1, 2x2, 8x8, 64x1, 1x32, 9x8 (>64) and 64x32 cells, illegal timestamps, all-invalid markers, counter bytes): CRC-valid frame through HandleMessages' loop, GetMessage, Analyse, String twice, Copy+String, PrepareForDisplay and the String method of whatever it returns (and of Message.Readable) at both log levels and the four decoders directly; (c) every well-formed message of a C04/C05 selection truncated at every payload byte and re-framed with a valid CRC; (f) for each of the 14 MSM types, complete messages (2 satellites, 3 cells) in which a satellite carries each subset of {range invalid, rate invalid} and a cell each subset of {range delta, phase delta, rate delta invalid}, in one satellite/cell and in all; (d) every type 0..4095 with payload lengths {1,2,3,4,6,7,21,22,23}; (e) every ordered pair and triple from a 26-frame menu (MSM4/MSM7 of four constellations with early and late timestamps so that sequences cross week roll-overs, illegal timestamps, a message with cells, a short MSM, SBAS, 1005, text, an unknown type) through ONE handler at both log levels, every message decoded and displayed and all of them displayed again at the end. Oracle: every call returns (no panic, bounded framing loop, 60 s stall watchdog). Non-trivial = CRC-valid frames of a decodable type; distinct = distinct frames"
 	r.Assumptions = []string{"'bounded time' is enforced by an iteration bound on the framing loop plus a stall watchdog; a hang is reported only if it reproduces"}
 	var cur atomic.Value
 	var progress int64
